@@ -125,6 +125,8 @@ impl Bus {
         let _ = self.ctl.set_nonblocking(false);
     }
     pub fn release(&self) { self.paused.store(false, Ordering::SeqCst); }
+    /// the flag `release` clears, for a helper thread that ends a stall after a delay
+    pub fn pause_flag(&self) -> Arc<AtomicBool> { self.paused.clone() }
 
     /// whether frames are looped back to the sibling sockets of the same interface (SocketCAN does);
     /// the step-by-step authority rig switches it off so that the receive handle only ever sees
